@@ -989,7 +989,17 @@ func (r *run) judgeC16(revName, kind string, rev map[string]any, sp Spec, p *Pkg
 				}
 			}
 		}
-		if state == "Active" && (!pkgOwner || pkgController) {
+		// (an inactive revision that establishes - it had recorded no objects yet -
+		// and became an owner of the object in this reconcile counts as well)
+		inactiveEstablished := false
+		if state == "Inactive" && isOwner && r.objectRefsRead(t.ID, revName) == 0 {
+			for _, e := range mine {
+				if e.Key.Kind == parts[0] && e.Key.Name == parts[1] && e.Changed && !e.DryRun && e.Err == nil {
+					inactiveEstablished = true
+				}
+			}
+		}
+		if (state == "Active" || inactiveEstablished) && (!pkgOwner || pkgController) {
 			w.S.Violate("C16/package-not-plain-owner", fmt.Sprintf("%s established by %s does not list package %s as a non-controlling owner", k, revName, p.Name))
 		}
 	}
